@@ -282,6 +282,29 @@ def gen_rev_first_calls_case(rng):
             "steps": steps, "n": n, "dest": dest, "unanswered": [], "strays": 0, "dups": 0, "first_calls": True}
 
 
+def deliver_hook_present():
+    try:
+        return 'verifYield("before-deliver"' in open(os.path.join(hv.REPO, "rpc", "socket", "transport.go")).read()
+    except OSError:
+        return False
+
+
+def gen_late_delivery_case(cid, transport):
+    """hook (yield point before-deliver of rpc/socket): the Receive goroutine has taken caller 0's pending entry and is held
+    before it hands the response over; caller 0 gives up and returns; the delivery then goes into the channel of a call
+    that is over.  The next caller on the connection gets the reply to ITS request, never the late one."""
+    steps = [["call", 0, 2500], ["await_recv", 1, 3000], ["hold", "recv", "before-deliver"], ["reply", 0],
+             ["await_yield", "recv", "before-deliver", 3000], ["cancel", 0], ["await_ret", 0, 2000],
+             ["release", "recv", "before-deliver"], ["sleep", 20],
+             ]
+    # whatever per-call object the transport recycles, one of the next calls would pick it up
+    for k in range(1, 25):
+        steps += [["call", k, 2500], ["await_recv", k + 1, 3000], ["reply", k], ["await_ret", k, 3000]]
+    steps += [["sleep", 20], ["probe", "end"]]
+    return {"id": cid, "fam": "late-delivery", "transport": transport, "peer": "script", "steps": steps, "hook": True,
+            "cancelled": [0], "unanswered": [], "n": 25}
+
+
 def gen_first_select_case(cid, transport):
     """hook: Send is held with caller 0's request in hand, so callers 1 and 2 sit in their FIRST select with nobody to take
     their requests; caller 1 is cancelled there (case <-ctx.Done(): c.delete(index) of the first select); then Send goes on
@@ -394,6 +417,9 @@ def gen_cases(ctx, hook):
     if hook and rev_hook_present():
         for _ in range(2 if quick else 6):
             add(gen_rev_answer_before_registered_case(rng))
+    if hook and deliver_hook_present():
+        for t in ("tcp", "unix"):
+            add(gen_late_delivery_case(0, t))
     if hook:
         for t in ("tcp", "ws", "udp"):
             add(gen_first_select_case(0, t))
@@ -710,6 +736,8 @@ def oracle(case, obs):
         if datagram_may_be_lost(case, obs, k, q):
             obs.setdefault("_inconclusive", []).append(k)      # UDP may drop the reply: no verdict without evidence of arrival
             continue
+        if case["fam"] == "late-delivery" and k in case.get("cancelled", []):
+            continue        # the schedule holds the delivery of this reply until the caller has given up: it returns canceled
         if k in cancelled and ret_seq.get(k, 10**9) > q and r.startswith("canceled"):
             # answered, still not returned when the script gave up on it and cancelled it
             d = reuse_distance(case, obs, k)
